@@ -408,6 +408,15 @@ func vfC19Ser(v *vfC19Val, st *vfC19Style) (text string, escapedKey bool) {
 	return b.String(), escapedKey
 }
 
+// vfC19SerDoc writes a complete JSON text: the value with generated whitespace before and after it.
+func vfC19SerDoc(v *vfC19Val, st *vfC19Style) (text string, escapedKey bool) {
+	var b strings.Builder
+	st.ws(&b)
+	vfC19SerInto(&b, v, st, &escapedKey)
+	st.ws(&b)
+	return b.String(), escapedKey
+}
+
 func vfC19SerInto(b *strings.Builder, v *vfC19Val, st *vfC19Style, esc *bool) {
 	switch v.Kind {
 	case 't':
